@@ -2,7 +2,7 @@
    Only statements here; the model is Model/LlcLife.v (multi-thread transition system: any number of
    application threads, the link thread, schedules = lists of labels), proofs in Proofs/LlcLifeSeg.v
    (one lock-hold segment) and Proofs/LlcLife.v (inductive invariant, all schedules).
-   Variant Fixed = nfcpy after fixes/c09-1..7; variant Orig = the unrepaired code where it differs.
+   Variant Fixed = nfcpy after fixes/c09-1..8; variant Orig = the unrepaired code where it differs.
 
    Liveness is stated as safety: "blocked => not shut down, or a notification is pending" is an
    inductive invariant, so after the shutdown transition every thread is runnable and each of its
@@ -110,6 +110,15 @@ Theorem C09_unrepaired_resolve_after_termination_crashes :
   ts (thr (late_resolve Orig) 7) = Done (Crash AttributeErr).
 Proof. exact orig_late_resolve_crashes. Qed.
 Print Assumptions C09_unrepaired_resolve_after_termination_crashes.
+
+(* the unrepaired link-thread enqueue (state test outside the lock) could queue a CC to a closed socket;
+   connect() then revives it.  With the queue empty (invariant of the repaired code) it raises EPIPE *)
+Theorem C09_unrepaired_enqueue_revives_closed_socket :
+  let closed_with_cc := mkSock DLC SHUTDOWN true true true [ICC] 0 1 1 0 0 in
+  st (o_sock (seg Fixed PConn2 closed_with_cc false true)) = ESTABLISHED /\
+  o_act (seg Fixed PConn2 (set_rq closed_with_cc []) false true) = ARet (Err (LlcpError EPIPE)).
+Proof. exact revive_needs_empty_queue. Qed.
+Print Assumptions C09_unrepaired_enqueue_revives_closed_socket.
 
 (* non-vacuity: four threads blocked in recv (raw), accept, connect and resolve; the link terminates;
    all four are notified and return / raise; a call issued afterwards returns at once *)
